@@ -22,6 +22,7 @@ package main
 import (
 	"flag"
 	"fmt"
+	"hash/fnv"
 	"os"
 	"reflect"
 	"strings"
@@ -99,12 +100,39 @@ var constructors = map[wamp.MessageType]func() wamp.Message{
 type runner struct {
 	sum      *hcommon.Summary
 	rng      *hcommon.RNG
-	distinct map[string]struct{}
+	distinct map[uint64]struct{}
 	maxDis   int
 }
 
 func (r *runner) seen(kind, key string) {
-	r.distinct[kind+"\x00"+key] = struct{}{}
+	h := fnv.New64a()
+	h.Write([]byte(kind))
+	h.Write([]byte{0})
+	h.Write([]byte(key))
+	r.distinct[h.Sum64()] = struct{}{}
+}
+
+// dedupeFindings keeps, per finding id and leading text, the shortest line.
+func dedupeFindings(in []string) []string {
+	best := map[string]string{}
+	var order []string
+	for _, l := range in {
+		key := l
+		if i := strings.Index(l, "; e.g. "); i > 0 {
+			key = l[:i]
+		}
+		if old, ok := best[key]; !ok {
+			best[key] = l
+			order = append(order, key)
+		} else if len(l) < len(old) {
+			best[key] = l
+		}
+	}
+	out := make([]string, 0, len(order))
+	for _, k := range order {
+		out = append(out, best[k])
+	}
+	return out
 }
 
 func (r *runner) disagree(input, impl, model any, spec bool, detail string) {
@@ -112,9 +140,11 @@ func (r *runner) disagree(input, impl, model any, spec bool, detail string) {
 	if len(r.sum.Disagreements) >= r.maxDis {
 		return
 	}
-	for _, d := range r.sum.Disagreements {
-		if d.Detail == detail {
-			return // one representative per kind
+	if os.Getenv("VERIF_CODEC_ALL") == "" {
+		for _, d := range r.sum.Disagreements {
+			if d.Detail == detail {
+				return // one representative per kind
+			}
 		}
 	}
 	r.sum.Disagreements = append(r.sum.Disagreements, hcommon.Disagreement{
@@ -255,14 +285,27 @@ func main() {
 	_ = replay
 
 	sum := &hcommon.Summary{Family: "codec", Property: *prop, Seed: *seed, Tier: *tier,
-		Rule: "distinct (section, canonical input) pairs; trivial inputs (empty list / scalar-only) are not excluded but every message carries ≥1 generated field"}
-	r := &runner{sum: sum, rng: hcommon.NewRNG(*seed), distinct: map[string]struct{}{}, maxDis: 12}
+		Rule: "distinct (section, canonical input) pairs, counted by 64-bit FNV hash; trivial inputs (empty list / scalar-only) are not excluded but every message carries ≥1 generated field"}
+	// Split(): hcommon.NewRNG(seed) streams of nearby seeds are shifted copies of one another
+	r := &runner{sum: sum, rng: hcommon.NewRNG(*seed).Split(), distinct: map[uint64]struct{}{}, maxDis: 12}
+	if os.Getenv("VERIF_CODEC_ALL") != "" {
+		r.maxDis = 1000
+	}
 
-	r.sectionRoundtrip(*n)
-	r.sectionL2M(*n)
+	// work in chunks so that the thorough tier does not hold millions of driver lines in memory
+	const chunkN, chunkB = 5000, 50000
+	for done := 0; done < *n; done += chunkN {
+		k := minInt(chunkN, *n-done)
+		r.sectionRoundtrip(k)
+		r.sectionL2M(k)
+		r.wireValues(k)
+	}
+	for done := 0; done < *nbytes; done += chunkB {
+		r.wireBytes(minInt(chunkB, *nbytes-done))
+	}
 	r.sectionSynthetic()
-	r.sectionWire(*n, *nbytes)
 	r.sectionWitness()
+	r.sum.KnownFindings = dedupeFindings(r.sum.KnownFindings)
 
 	sum.DistinctNontrivial = len(r.distinct)
 	if err := sum.Write(*out); err != nil {
@@ -273,7 +316,7 @@ func main() {
 }
 
 // jsonModelled: the Lean JSON fragment is available in the driver.
-var jsonModelled = false
+var jsonModelled = true
 
 func hcommonRun(lines []string) ([]string, error) {
 	if len(lines) == 0 {
